@@ -14,7 +14,10 @@ func init() {
 			}
 			for kind := int64(0); kind <= 1; kind++ {
 				for _, s := range seeds {
-					for via := int64(0); via <= 1; via++ {
+					for via := int64(0); via < 6; via++ {
+						if tier == "quick" && via >= 3 && kind == 1 {
+							continue
+						}
 						for m := int64(0); m < 17; m++ {
 							cs = append(cs, mkCase("", "c09", "HMutate", cfg, kind, s, via, m))
 						}
